@@ -9,6 +9,7 @@ import (
 	"os"
 	"os/exec"
 	"path/filepath"
+	"strconv"
 	"testing"
 	"time"
 
@@ -33,6 +34,13 @@ func TestC14(t *testing.T) {
 			cfg.GRPCBrokerMultiplex = p.Mux
 			cfg.StartTimeout = 8 * time.Second
 			hostSetFor(cfg, p.Proto)
+			if len(p.VerHost) > 0 {
+				cfg.Plugins = nil
+				cfg.VersionedPlugins = map[int]plugin.PluginSet{}
+				for _, v := range p.VerHost {
+					cfg.VersionedPlugins[v] = vp.Set(p.VerProto[strconv.Itoa(v)], v, []string{"kv"}, nil)
+				}
+			}
 			switch clientTLS {
 			case "static":
 				// usable in both roles: brokered connections make each side a TLS server too
@@ -51,6 +59,13 @@ func TestC14(t *testing.T) {
 		}
 		mkCfg := func() *plugin.ClientConfig { return mkCfgTLS(p.ClientTLS) }
 		pcfg := pluginCfgFor(p.Proto)
+		if len(p.VerPlugin) > 0 {
+			ver := map[string]string{}
+			for _, v := range p.VerPlugin {
+				ver[strconv.Itoa(v)] = p.VerProto[strconv.Itoa(v)]
+			}
+			pcfg = map[string]any{"versioned": ver}
+		}
 		if p.ServerTLS == "static" {
 			os.WriteFile(filepath.Join(d, "cert.pem"), serverCert, 0o600)
 			os.WriteFile(filepath.Join(d, "key.pem"), serverKey, 0o600)
